@@ -31,6 +31,10 @@ class SolverError(Exception):
     pass
 
 
+class CaptureDone(BaseException):
+    """raised by solve() in capture-only mode once the problem has been recorded"""
+
+
 class State:
     """Per-path record of what the code under test handed to the solver."""
 
@@ -38,6 +42,7 @@ class State:
         self.problems = []      # list of dict(solver=, objective=, constraints=, var=, feasible=, points=)
         self.vars = []
         self.fail_next = []     # exceptions to raise on the next solve() calls (back-end configs)
+        self.capture_only = False
 
 
 STATE = State()
@@ -180,6 +185,10 @@ class Problem:
                 ok &= _sat_row(vals, op, rhs).all(axis=1)
             pts = [tuple(int(v) for v in p) for p in allp[ok]]
         rec["feasible_points"] = len(pts)
+        rec["objective"] = [self.objective.expr.M[0, j] for j in range(n)]
+        rec["sense"] = self.objective.sense
+        if STATE.capture_only:
+            raise CaptureDone()
         if not pts:
             var.value = None
             return None
